@@ -118,12 +118,54 @@ def classify(db, ty):
             return "partial", "the writer binds %s, which the parser does not accept" % sorted(w - accepted)
     for rx_, why in REVIEWED:
         if re.search(rx_, ty):
+            if ty in INVERSE_PARSERS:
+                rej = own_rejections(db, ty)
+                if rej is None:
+                    return "unknown", "the parser functions of %s were not found" % ty
+                extra = rej - INVERSE_PARSERS[ty][1]
+                if extra:
+                    return "partial", ("the text parser of %s rejects values on its own (%s) beyond decoding errors: a value of that kind that was "
+                                       "stored — the wire decoder builds the type from raw bytes and does not apply this check — cannot be read back"
+                                       % (cfg.short(ty), ", ".join(sorted(extra))))
             if ty == "radicle::node::UserAgent" and not user_agent_charset(db):
                 return "partial", ("UserAgent::from_str has a segment form whose characters are not restricted to ASCII graphic ones: a user agent with a "
                                    "control character (NUL) is stored and does not read back")
             return "reviewed", why
     return "partial", "`TryFrom<&Value> for %s` can reject stored values (%s) and no reviewed argument says that every value the writer stores re-parses" % (
         ty, p["file"] + ":" + str(p["line"]))
+
+
+# Parsers of the "inverse encoding" kind: the functions the text goes through, and the error variants they may construct
+# *themselves* (everything else must be a propagated decoding/length error).  A rejection the parser adds on the decoded value
+# (e.g. "the null id is not a repository") makes stored values unreadable.
+INVERSE_PARSERS = {
+    "radicle::identity::doc::id::RepoId": ([r"^radicle::identity::doc::id::RepoId::(from_urn|from_canonical)$"], set()),
+    "radicle_crypto::PublicKey": ([r"^<radicle_crypto::PublicKey as core::str::traits::FromStr>::from_str$"], {"Multicodec"}),
+    "radicle_crypto::Signature": ([r"^<radicle_crypto::Signature as core::str::traits::FromStr>::from_str$"], set()),
+}
+
+
+def own_rejections(db, ty):
+    """Error variants the parser functions of `ty` construct directly (not propagated with `?`); None if a function is missing."""
+    pats, allowed = INVERSE_PARSERS[ty]
+    out = set()
+    for pat in pats:
+        fns = db.find(pat)
+        if not fns:
+            return None
+        for f in fns:
+            ss = pathsum.summaries(db, f, 256)
+            if ss is None:
+                return None
+            for p, facts, ret in ss:
+                e = peel(ret) if ret is not None else None
+                if e is not None and e[0] == "agg" and isinstance(e[1], dict) and e[1].get("adt", "").endswith("result::Result") and e[1].get("var") == "Err":
+                    inner = peel(e[2][0]) if e[2] else None
+                    name = "?"
+                    if inner is not None and inner[0] == "agg" and isinstance(inner[1], dict):
+                        name = inner[1].get("var") or inner[1].get("adt", "?").rsplit("::", 1)[-1]
+                    out.add(name)
+    return out
 
 
 def user_agent_charset(db):
